@@ -88,10 +88,38 @@ def gen_cases(rng, tier):
                 cases.append({"st": st, "mode": mode, "lines": lines, "junk": junk,
                               "checklines": rng.choice([0, 1, 2, max(0, n - 1), n, n + 2, 10, 10]),
                               "keep_order": rng.random() < 0.75, "sort_values": rng.random() < 0.2})
+    for i in range(150 if tier == "quick" else 3000):
+        cases.append({"k": "raw", "raw": gen_raw_file(rng), "checklines": rng.choice([0, 1, 2, 10, 10]),
+                      "keep_order": rng.random() < 0.75, "sort_values": rng.random() < 0.15})
     return cases
 
 
+RAW_ATTRS = ["", ".", "ID=a", "Parent=t1,", "Dbxref=DB:3,,DB:4", "Alias=,second", "Name=G1;ID=g1", "ID=g2;Name=G2", "ID=x;Note=a b",
+             'gene_id "g"; transcript_id "t";', 'transcript_id "t"; gene_id "g";', "ID=x;;Name=y", "ID=x;", "flag", "ID=x;flag;Name=y",
+             "a=b=c;ID=q", "ID=%41%3B;Name=n", "ID=x ; Name=y", "ID=x; Name=y; ", "Parent=p1,p2;ID=c", "Parent=p1;Parent=p2;ID=c",
+             "Note=,;ID=z", "ID=z;Note=", "Name=N;Alias=a,,b,;ID=y", 'gene_id "g"; tag "a"; tag "b"; flag "";', "ID=one", "Name=only"]
+
+
+def gen_raw_file(rng):
+    n = rng.choice([1, 2, 3, 4, 6, 12])
+    lead = rng.choice([0, 0, 1, 2, 3, 11])          # leading lines whose attribute column is empty
+    lines = []
+    pool = rng.sample(RAW_ATTRS, rng.choice([1, 2, 3, 5]))
+    for i in range(n):
+        a = rng.choice(["", ".", ""]) if i < lead else rng.choice(pool)
+        cols = [G.gen_col(rng) for _ in range(6)]
+        s, e = G.gen_coord(rng), G.gen_coord(rng)
+        fields = [cols[0], cols[1], cols[2], G.coord_str(s), G.coord_str(e), cols[3], cols[4], cols[5], a]
+        if rng.random() < 0.15:
+            fields.append(rng.choice(["x", "a b", "k=v"]))
+        lines.append("\t".join(fields))
+    return lines
+
+
 def valid_case(c):
+    if c.get("k") == "raw":
+        return isinstance(c.get("raw"), list) and len(c["raw"]) >= 1 and all(isinstance(x, str) and x.count("\t") >= 8 and "\n" not in x
+                                                                           for x in c["raw"]) and c["checklines"] >= 0
     try:
         return len(c["lines"]) >= 1 and all(len(set(k for k, _ in ln["attrs"])) == len(ln["attrs"]) for ln in c["lines"]) \
             and c["checklines"] >= 0
@@ -100,6 +128,14 @@ def valid_case(c):
 
 
 def shrinks(c):
+    if c.get("k") == "raw":
+        r = c["raw"]
+        for i in range(len(r)):
+            if len(r) > 1:
+                yield dict(c, raw=r[:i] + r[i + 1:])
+        if c["checklines"] > 0:
+            yield dict(c, checklines=c["checklines"] - 1)
+        return
     ls = c["lines"]
     if len(ls) > 1:
         for i in range(len(ls)):
@@ -117,6 +153,8 @@ def shrinks(c):
 
 
 def file_text(c):
+    if c.get("k") == "raw":
+        return list(c["raw"]), "\n".join(c["raw"]) + "\n"
     raw = [G.render_line(dict(ln, st=c["st"])) for ln in c["lines"]]
     out = []
     junk = {}
@@ -206,12 +244,21 @@ def coq_dbobs(o):
 def coq_case(c, o):
     cfg = "(mkCfg %d%%nat (@None dialect) %s %s)" % (c["checklines"], L.b(c["keep_order"]), L.b(c["sort_values"]))
     r = lambda x: L.res(x, coq_dbobs)
+    if c.get("k") == "raw":
+        return "CRaw %s %s %s %s %s" % (L.ss(o["raw"]), cfg, r(o["mem"]), r(o["file"]), r(o["reopen"]))
     return "CFile %s %s %s %s %s %s %s %s" % (
         G.coq_style(c["st"]), L.lst([coq_feature(ln) for ln in c["lines"]], "feature"), L.ss(o["raw"]), cfg,
         r(o["mem"]), r(o["file"]), r(o["reopen"]), r(o["reimport"]))
 
 
 def labels(c, o):
+    if c.get("k") == "raw":
+        yield "mode=raw"
+        yield "nlines=%d" % len(c["raw"])
+        yield "raw/import=" + o["mem"][0]
+        if c["raw"][0].split("\t")[8] in ("", "."):
+            yield "raw/first-line-has-no-attributes"
+        return
     yield "mode=" + c["mode"]
     yield "kv=" + c["st"]["kv"]
     yield "nlines=%d" % len(c["lines"])
@@ -224,6 +271,8 @@ def labels(c, o):
 
 
 def nontrivial_key(c, o):
+    if c.get("k") == "raw":
+        return ("raw", tuple(x.split("\t")[8] for x in c["raw"][:3]), c["checklines"], c["keep_order"]) if len(c["raw"]) > 1 else None
     if len(c["lines"]) < 2:
         return None
     st = c["st"]
